@@ -257,6 +257,8 @@ func runC17F(s *kernel.Sim) {
 	}
 	calls := map[string]*call{}
 	seqs := []string{"s1", "s2", "s3"}
+	pinned := tp.Chance(1, 4)
+	s.Knobs["client_pins_transaction_id"] = pinned
 	statuses := []int{500, 503, 599, 200, 404, 429}
 	n := 0
 	type respOp struct {
@@ -337,7 +339,12 @@ func runC17F(s *kernel.Sim) {
 		for i := 0; i < k; i++ {
 			n++
 			seq := seqs[perm[i]]
-			ops = append(ops, &respOp{seq: seq, id: fmt.Sprintf("%s-r%d", seq, n), status: statuses[tp.Weighted([]int{4, 2, 1, 2, 1, 1})]})
+			id := fmt.Sprintf("%s-r%d", seq, n)
+			if pinned {
+				id = seq // the client pins the transaction id (x-lunar-req-id): every attempt carries the sequence's id
+			}
+			delete(verdict, id)
+			ops = append(ops, &respOp{seq: seq, id: id, status: statuses[tp.Weighted([]int{4, 2, 1, 2, 1, 1})]})
 		}
 		inGroup = k > 1
 		var tasks []*kernel.Task
